@@ -119,9 +119,9 @@ def run_one(d, h, tier):
         r['failed_check'] = fc.group(1).strip() if fc else ''
         # an unwinding-assertion failure is a tool bound, not a refutation
         failed = re.findall(r'Failed Checks: (.*)', out)
-        if failed and all('unwinding assertion' in x for x in failed):
+        if failed and all(('unwinding assertion' in x or 'not currently supported by Kani' in x or 'unsupported' in x.lower()) for x in failed):
             r['status'] = 'undecided'
-            r['note'] = 'unwinding bound too small'
+            r['note'] = 'tool limit: ' + '; '.join(failed)[:200]
         else:
             r['status'] = 'refuted'
             vals = parse_playback(out)
